@@ -12,7 +12,8 @@
 """
 import os, re, json, hashlib, subprocess, shutil, tempfile, time, difflib
 import vlib, build, gen
-import genqueue  # noqa: registers the GenQueue.v translator
+import genqueue  # noqa: registers the GenQueue.v translator (and, through it, GenOutput.v)
+import genoutput
 
 PROPS = "Props/Properties_C18.v"
 LEVEL = "proof"
@@ -90,10 +91,15 @@ def qmodel():
         shutil.rmtree(tmp, ignore_errors=True)
 
 
+# stdio functions interposed in the shim build (calls from cli/yara.c and from libyara.a)
+WRAPPED = ["printf", "vprintf", "fprintf", "vfprintf", "puts", "putchar", "fputs", "fputc", "putc", "fwrite"]
+
+
 def shim_binary(info):
     fl = ["-DQ_HEAD=%s" % info["head"], "-DQ_TAIL=%s" % info["tail"], "-DQ_RING=%s" % info["ring"],
           "-DQ_MUTEX=%s" % info["mutex"], "-DQ_USED=%s" % info["sem_used"], "-DQ_UNUSED=%s" % info["sem_unused"],
-          "-DQ_SLOTS=%d" % info["slots"][0]]
+          "-DQ_SLOTS=%d" % info["slots"][0], "-DQ_OUTMUTEX=%s" % info.get("outmutex", "output_mutex"),
+          "-Wl," + ",".join("--wrap=" + f for f in WRAPPED)]
     return build.harness("h_c18_shim", extra_flags=fl, link_cli=["yara", "args", "common"])
 
 
@@ -268,15 +274,27 @@ def compare_dir_run(out, base, root, files, count_mode, negate=False):
 
 
 # ------------------------------------------------------------------ shim traces
-def parse_trace(text):
+def parse_trace(text, out=None):
+    """out (dict, optional) receives the output-discipline lines: events {tid: str}, writes [5 ints], unlocked [lines]."""
     order, evs, fin, sched = [], [], "", []
     seminit = {}
+    if out is not None:
+        out.update(events={}, writes=None, unlocked=[])
     for l in text.split("\n"):
         if not l:
             continue
         p = l.split(" ")
         if p[0] == "SEMINIT":
             seminit[p[1]] = int(p[2])
+            continue
+        if p[0] in ("EVENTS", "WRITES", "UNLOCKED-WRITE"):
+            if out is not None:
+                if p[0] == "EVENTS" and len(p) >= 3:
+                    out["events"][int(p[1])] = "" if p[2] == "-" else p[2]
+                elif p[0] == "WRITES":
+                    out["writes"] = [int(x) for x in p[1:6]]
+                elif p[0] == "UNLOCKED-WRITE":
+                    out["unlocked"].append(l)
             continue
         if p[0] in ("END", "DEADLOCK", "STEPLIMIT", "REPLAY-DIVERGED", "REPLAY-EXHAUSTED"):
             fin = l
@@ -320,6 +338,106 @@ def taken_items(evs):
     return put, got
 
 
+def private_obligations():
+    """The lemmas that tie the theorems to the source (cfg_shape / Mq_pos / threads_covered for the queue, worker_checked
+    for the output path) re-checked against the models translated NOW by this process, in a scratch directory.
+    coq/gen/ is shared with every other run (anything that calls coq_prepare rewrites it from its own VERIF_REPO), so
+    the shared build alone is not trusted to have compiled this run's translation.  Returns a list of failures."""
+    fails = []
+    try:
+        gq = genqueue.gen_queue()
+        body = gq[gq.index("Definition MAX_QUEUED_FILES"):]
+        rc, out = vlib.coq_eval(
+            "From Coq Require Import ZArith List Lia.\nImport ListNotations.\n"
+            "From YV Require Import gen.GenConsts Model.QueueOps.\n"
+            "Module P.\nLocal Open Scope Z_scope.\n" + body + "\nEnd P.\n"
+            "Goal P.queue_cfg = qstd_cfg (Z.to_nat P.MAX_QUEUED_FILES) (qc_fin_n P.queue_cfg).\nProof. vm_compute. reflexivity. Qed.\n"
+            "Goal (0 < Z.to_nat P.MAX_QUEUED_FILES)%nat.\nProof. vm_compute. lia. Qed.\n"
+            "Goal (P.queue_max_threads <= qc_fin_n P.queue_cfg)%nat.\nProof. vm_compute. lia. Qed.\n", timeout=300)
+        if rc != 0:
+            fails.append("queue model translated now: cfg_shape / Mq_pos / threads_covered do not hold: " + " ".join(out.split())[-500:])
+    except gen.GenError as e:
+        pass    # reported by the caller
+    try:
+        go = genoutput.gen_output()
+        body = go[go.index("Definition out_worker"):]
+        rc, out = vlib.coq_eval(
+            "From Coq Require Import List String.\nImport ListNotations.\n"
+            "From YV Require Import Model.QueueOutput.\n"
+            "Module P.\nLocal Open Scope string_scope.\n" + body + "\nEnd P.\n"
+            "Goal chk (out_allowed known_unprotected_vars unlocked_stderr_sites (written_vars P.out_worker) P.out_main_writes)\n"
+            "         P.out_worker false = Some (mkR (Some false) None None None).\nProof. vm_compute. reflexivity. Qed.\n"
+            "Goal exists tr ch, orun 5000 P.out_worker P.out_example_choices = Some (tr, ONormal, ch) /\\\n"
+            "     (existsb is_lock tr && existsb is_stdout tr)%bool = true.\nProof. vm_compute. eexists; eexists; split; reflexivity. Qed.\n",
+            timeout=300)
+        if rc != 0:
+            fails.append("output model translated now: worker_checked does not hold (a write or shared access outside the output "
+                         "mutex, or unbalanced lock/unlock on some path): " + " ".join(out.split())[-500:])
+    except gen.GenError as e:
+        pass
+    return fails
+
+
+def out_discipline(chk, od, nfa, what, n, seed, mode, tree_replay, args, sched, octr):
+    """Tie of the output model: (i) at run time every stdio call of a scanning thread to stdout happened with the output
+    mutex held (the shim's own bookkeeping), to stderr likewise except warnings; (ii) the sequence of lock/unlock/output
+    events of every scanning thread is a prefix of an execution of the generated model (gen/GenOutput.v)."""
+    if not od or od.get("writes") is None:
+        return
+    w = od["writes"]
+    octr["runs"] += 1
+    octr["stdout_locked"] += w[0]
+    octr["stderr_locked"] += w[2]
+    rep = tree_replay({"kind": "shim", "args": args[:-1] + ["<tree>"], "threads": n, "seed": seed, "mode": mode,
+                       "schedule": " ".join(sched) if len(sched) < 60000 else "(too long; rerun with seed/mode)",
+                       "unlocked_writes": od["unlocked"][:10]})
+    bad_out = [l for l in od["unlocked"] if " stdout " in l]
+    bad_err = [l for l in od["unlocked"] if " stderr " in l and not l.split(" ", 3)[3].startswith("warning:")]
+    octr["stderr_unlocked_warnings"] += w[3] - len(bad_err)
+    if w[1] or bad_out:
+        chk.violation("output-unlocked", "real cli/yara.c under the scheduler shim (%s, seed %d mode %d): %d stdio call(s) to stdout "
+                      "made by a scanning thread that does not hold the output mutex, e.g. %s" % (what, seed, mode, w[1], bad_out[:3]), rep)
+    if bad_err:
+        chk.violation("stderr-unlocked", "real cli/yara.c under the scheduler shim (%s, seed %d mode %d): stdio call(s) to stderr "
+                      "outside the output mutex that are not warnings: %s" % (what, seed, mode, bad_err[:3]), rep)
+    if nfa:
+        for t, ev in sorted(od["events"].items()):
+            octr["events"] += len(ev)
+            i = nfa.accepts_prefix(ev)
+            if i >= 0:
+                chk.violation("output-model", "scanning thread %d of the real cli/yara.c (%s, seed %d mode %d) produced the lock/output "
+                              "event sequence ...%s[%s]%s..., which no execution of the model generated from cli/yara.c has "
+                              "(L/U = lock/unlock of the output mutex, o/e = one stdio call to stdout/stderr)"
+                              % (t, what, seed, mode, ev[max(0, i - 30):i], ev[i], ev[i + 1:i + 10]),
+                              dict(rep, thread=t, position=i), found_input=False)
+                break
+
+
+def extra_runs(chk, shim, tmp, root, paths, rules_src, nfa, tree_replay, octr, quick):
+    rules_x = os.path.join(tmp, "rules_x.yar")
+    open(rules_x, "w").write('import "console"\nimport "elf"\n'
+                             'rule logs { strings: $a = "hello" condition: console.log("n=", #a) and $a }\n'
+                             'rule e { condition: elf.type == elf.ET_EXEC or filesize >= 0 }\n')
+    big = os.path.join(tmp, "many_matches")
+    open(big, "wb").write(b"ab" * 1050000)
+    rules_m = os.path.join(tmp, "rules_m.yar")
+    open(rules_m, "w").write('rule m { strings: $m = "ab" condition: $m }\n')
+    lst = os.path.join(tmp, "xlist.txt")
+    open(lst, "w").write("\n".join(paths[:6] + [os.path.join(tmp, "does_not_exist"), big] + paths[6:10]) + "\n")
+    runs = [(["-p", "4", "-r", "-s", "-D", rules_x, root], 3), (["-p", "3", "-s", "-g", "--scan-list"] + rules_src + [lst], 0),
+            (["-p", "2", "--scan-list", rules_m, lst], 6), (["-p", "5", "-r", "-D", "-m", "-e", rules_x, root], 2)]
+    for args, mode in runs[:3 if quick else 4]:
+        seed = chk.rng.next() % (1 << 62)
+        rc, out, err, text = run_shim(shim, args, seed, mode, tmp, timeout=120)
+        od = {}
+        order, evs, fin, sched, _ = parse_trace(text, od)
+        if rc == "timeout" or not fin.startswith("END"):
+            chk.violation("shim-abnormal", "real cli/yara.c under the scheduler shim (%s): %s" % (" ".join(a.replace(tmp, "<tmp>") for a in args), fin[:100] or rc),
+                          tree_replay({"kind": "shim-extra", "args": [a.replace(tmp, "<tmp>") for a in args], "seed": seed, "mode": mode}))
+            continue
+        out_discipline(chk, od, nfa, " ".join(a.replace(tmp, "<tmp>") for a in args[:-2]), int(args[1]), seed, mode, tree_replay, args, sched, octr)
+
+
 # ------------------------------------------------------------------ the check
 def run(chk, replay_spec=None):
     quick = chk.tier == "quick"
@@ -334,11 +452,38 @@ def run(chk, replay_spec=None):
     broken = []
     if gq.startswith("error") or gq == "missing":
         broken.append("the translator of the queue functions failed: " + gq)
+    go = st.get("GenOutput.v", "missing")
+    outinfo = None
+    try:
+        outinfo = genoutput.parse()
+    except gen.GenError as e:
+        go = "error:" + str(e)
+    if go.startswith("error") or go == "missing":
+        broken.append("the translator of the output path (lock discipline of the scanner callback) failed: " + go)
     if not ok:
-        broken.append("obligations over the regenerated queue model no longer check: " + log[-1500:])
+        broken.append("obligations over the regenerated queue / output models no longer check: " + log[-1500:])
+    else:
+        pf = private_obligations()
+        if pf:
+            broken += pf
+            try:
+                same = open(os.path.join(gen.GEN_DIR, "GenOutput.v")).read() == genoutput.gen_output()
+            except (OSError, gen.GenError):
+                same = None
+            chk.note(discharged=0, private_obligations=pf, shared_gen_output_is_this_runs_translation=same,
+                     shared_build_log_tail=log[-600:])
+        else:
+            chk.note(private_obligations="cfg_shape, Mq_pos, threads_covered, worker_checked re-checked against this run's translation")
+    if outinfo:
+        chk.note(output_model=dict(worker=outinfo["worker"], callback=outinfo["callback"], mutex=outinfo["outmutex"],
+                                   inlined=outinfo["inlined"], nodes=genoutput.count_nodes(outinfo["ast"]),
+                                   stdout_sites=sorted(k for k, v in outinfo["sites"].items() if "Stdout" in v),
+                                   stderr_sites=sorted(k for k, v in outinfo["sites"].items() if "Stderr" in v),
+                                   main_thread_stderr_while_workers_run=outinfo["main_stderr"]))
     chk.note(queue_model=dict(put=info["put"], get=info["get"], slots=info["slots"][0], unused0=info["unused0"][0],
                               finish_releases=info["fin_n"][0], max_threads=info["max_threads"][0]) if info else gq)
-    names = info or DEFAULT_NAMES
+    names = dict(info or DEFAULT_NAMES)
+    names["outmutex"] = outinfo["outmutex"] if outinfo else "output_mutex"
     slots = names["slots"][0]
 
     yara = build.harness("h_c18_yara", link_cli=["yara", "args", "common", "threading"])
@@ -363,6 +508,9 @@ def run(chk, replay_spec=None):
             a = open(os.path.join(gen.REF_DIR, "GenQueue.v")).read().split("\n")
             b = open(os.path.join(gen.GEN_DIR, "GenQueue.v")).read().split("\n")
             diff = "\n".join(difflib.unified_diff(a, b, "Gen.ref/GenQueue.v", "gen/GenQueue.v", lineterm=""))
+            a = open(os.path.join(gen.REF_DIR, "GenOutput.v")).read().split("\n")
+            b = open(os.path.join(gen.GEN_DIR, "GenOutput.v")).read().split("\n")
+            diff += "\n" + "\n".join(difflib.unified_diff(a, b, "Gen.ref/GenOutput.v", "gen/GenOutput.v", lineterm="", n=1))
         except OSError:
             pass
         # what does the model of the changed code do?  random walks looking for a deadlock or a lost/duplicated file
@@ -385,7 +533,7 @@ def run(chk, replay_spec=None):
             shutil.copy2(b, os.path.join(tmp, name))
             return os.path.join(tmp, name)
         yara, yarac, shim, model = private(yara, "yara"), private(yarac, "yarac"), private(shim, "yara_shim"), private(model, "qmodel")
-        _run_all(chk, quick, tmp, yara, yarac, shim, model, slots, info, replay_spec)
+        _run_all(chk, quick, tmp, yara, yarac, shim, model, slots, info, replay_spec, outinfo)
     finally:
         shutil.rmtree(tmp, ignore_errors=True)
     chk.note(check_wall_s=round(time.time() - t_start, 1))
@@ -407,7 +555,7 @@ def write_rules(tmp):
     return ra, rb
 
 
-def _run_all(chk, quick, tmp, yara, yarac, shim, model, slots, info, replay_spec):
+def _run_all(chk, quick, tmp, yara, yarac, shim, model, slots, info, replay_spec, outinfo):
     rng = chk.rng
     ra, rb = write_rules(tmp)
     rules_src = EXT_GOOD + ["nsa:" + ra, "nsb:" + rb]
@@ -439,6 +587,8 @@ def _run_all(chk, quick, tmp, yara, yarac, shim, model, slots, info, replay_spec
         tcs = [1, 2, 3, 4, 8, 32, 2, 5, 16, 31, 3, 32]
         optsets = [["-w"], ["-w", "-s"], ["-w", "-c"], ["-w", "-e", "-g", "-m"]]
         shim_steps = 0
+        nfa = genoutput.NFA(outinfo["ast"]) if outinfo else None
+        octr = {"runs": 0, "events": 0, "stdout_locked": 0, "stderr_locked": 0, "stderr_unlocked_warnings": 0}
         for k in range(nruns):
             n = tcs[k % len(tcs)] if k < 2 * len(tcs) else rng.range(1, 32)
             mode = k % 7
@@ -447,7 +597,9 @@ def _run_all(chk, quick, tmp, yara, yarac, shim, model, slots, info, replay_spec
             args = ["-p", str(n), "-r"] + opts + rules_src + [root]
             rc, out, err, text = run_shim(shim, args, seed, mode, tmp)
             evals += 1
-            order, evs, fin, sched, seminit = parse_trace(text)
+            od = {}
+            order, evs, fin, sched, seminit = parse_trace(text, od)
+            out_discipline(chk, od, nfa, "-p %d %s" % (n, " ".join(opts)), n, seed, mode, tree_replay, args, sched, octr)
             pends = [e.split(",")[3] for e in evs]
             if any(p[0] == "v" for p in pends):
                 chk.add("shim_runs_with_producer_blocked_on_full_queue")
@@ -503,7 +655,9 @@ def _run_all(chk, quick, tmp, yara, yarac, shim, model, slots, info, replay_spec
             if seminit and info and (seminit.get("used") != info["used0"][0] or seminit.get("unused") != info["unused0"][0]):
                 chk.violation("correspondence-init", "semaphores initialised to %r, model says used=%d unused=%d"
                               % (seminit, info["used0"][0], info["unused0"][0]), rep, found_input=False)
-        chk.note(shim_runs=nruns, shim_steps_replayed=shim_steps)
+        # the other branches of the callback: console.log, module data (-D), too-many-matches warnings, scan errors
+        extra_runs(chk, shim, tmp, root, paths, rules_src, nfa, tree_replay, octr, quick)
+        chk.note(shim_runs=nruns, shim_steps_replayed=shim_steps, output_discipline=octr)
 
     # ---------------------------------------------------------------- tie B: black box, thread counts and options
     optsets = [([], "plain"), (["-s"], "-s"), (["-L"], "-L"), (["-X"], "-X"), (["-m"], "-m"), (["-g"], "-g"), (["-e"], "-e"),
